@@ -7,7 +7,7 @@ HEADER = """C14 - containers use only their configured allocators.
     The tag in the model is a transcription of which identifier the C text calls; what makes that transcription
     checked is the correspondence run, where the library's malloc/calloc/free are macro-redirected to a second
     ledger and every trace is run with a custom triple: any traffic on the wrong ledger is a mismatch."""
-IMPORTS = """From Coq Require Import Permutation Sorted.\nFrom CC Require Import Base.Prelude Base.Alloc Base.Ledger Generated.Status Generated.Constants Generated.Guards.\nFrom CC Require Import Rbuf.RbufModel SPool.SPoolModel DPool.DPoolModel Array.ArrayModel Deque.DequeModel PQueue.PQueueModel Hash.HashModel Tst.TstModel Tree.TreeModel.\n@MODULES@\nLocal Open Scope N_scope."""
+IMPORTS = """From Coq Require Import Permutation Sorted.\nFrom CC Require Import Base.Prelude Base.Alloc Base.Ledger Generated.Status Generated.Constants Generated.Guards.\nFrom CC Require Import Rbuf.RbufModel SPool.SPoolModel DPool.DPoolModel Array.ArrayModel Deque.DequeModel PQueue.PQueueModel Hash.HashModel Tst.TstModel Tree.TreeModel List_.ListModel SList.SListModel.\n@MODULES@\nLocal Open Scope N_scope."""
 THEOREMS = [
   ("C14_array_step", "arr_step_tags", "CC_Array: one operation"),
   ("C14_array_run", "arr_run_tags", "CC_Array: all histories"),
@@ -20,4 +20,9 @@ THEOREMS = [
   ("C14_tst_destroy", "tst_destroy_tags", ""),
   ("C14_rbuf", "rb_new_destroy_balanced", "CC_Rbuf: both blocks requested and released with the configured family"),
   ("C14_dpool_malloc", "dp_malloc_spec", "CC_DynamicPool: new pages are requested from the pool's own family"),
+  ("C14_list_copy", "List_:copy_with_spec", "CC_List: derived lists are built with the source's allocator family (contents, result well formed, tag)"),
+  ("C14_list_filter", "List_:filter_spec", ""),
+  ("C14_slist_copy", "scopy_with_spec", "CC_SList"),
+  ("C14_slist_filter", "sfilter_spec", ""),
+  ("C14_slist_sublist", "ssublist_spec", ""),
 ]
